@@ -73,19 +73,27 @@ for name,fn,haspc in subs:
   conc_split hs
   all_goals (
     refine ⟨?_, fun b t => ?_, ?_, ?_⟩
-    · clear l2 i2 b2
-      (try log_simp); grind
-    · have := l2 b t; have := i2 b; have := b2 b t
+    · first
+      | exact l1
+      | (clear l2 i2 b2
+         (try log_simp); grind)
+    · have hl2b := l2 b t; have := i2 b; have := b2 b t
       clear l2 i2 b2
       by_cases hba : b = a
       · subst hba; (try log_simp); grind
       · have hab : ¬ a = b := fun h => hba h.symm
         try simp only [State.put, State.putS, State.finish, State.write, upd_apply, if_neg hba, if_neg hab]
-        (try log_simp); grind
-    · clear l2 i2 b2
-      (try log_simp); grind
-    · clear l2 i2 b2
-      (try log_simp); grind)'''
+        first
+        | exact hl2b
+        | ((try log_simp); grind)
+    · first
+      | exact l3
+      | (clear l2 i2 b2
+         (try log_simp); grind)
+    · first
+      | exact l4
+      | (clear l2 i2 b2
+         (try log_simp); grind))'''
     out+=thm("linv",name,fn,haspc,"(inv1 : Inv1 s) (bnd : Bnd s) (g : Linv s)","Linv s'",body)
 out+='''
 end Lungo.Conc
